@@ -18,6 +18,9 @@ pub struct Scn {
     /// the guest programs the timer with interrupts enabled: requests for 36/37/39 that
     /// appear in the real queue are accepted as raised by the peripheral
     pub timer_irqs: bool,
+    /// requests raised before run() is called (a peripheral that fired between loading and starting)
+    #[serde(default)]
+    pub preload: Vec<u8>,
 }
 
 #[derive(Clone, Copy, PartialEq, Eq)]
@@ -107,6 +110,8 @@ pub struct IrqObserver {
     pub trap_entries: u32,
     /// a TRAPA went through an entry that leads to no handler (all ones): the run ends in the fetch error that follows
     pub trapped_nowhere: bool,
+    /// a TRAPA sat in the last word of a region: its return address cannot be fetched from, the run ends there after the RTE
+    pub edge_trap: bool,
     pub irq_entries: u32,
     pub rte_matched: u32,
     pub rte_crafted: u32,
@@ -141,6 +146,7 @@ impl IrqObserver {
             entries: vec![0; nhandlers],
             trap_entries: 0,
             trapped_nowhere: false,
+            edge_trap: false,
             irq_entries: 0,
             rte_matched: 0,
             rte_crafted: 0,
@@ -359,6 +365,9 @@ impl Observer for IrqObserver {
                 let hidx = g.handlers.iter().position(|x| x.addr == h.addr).unwrap();
                 self.entries[hidx] += 1;
                 self.check_entry(cpu, g, &prev, row, 8 + n, prev.pc + 2, h.addr, hidx, matches!(h.kind, HandlerKind::Empty))?;
+                if cpu.bus.read((prev.pc + 2) & 0x00ff_ffff).is_err() {
+                    self.edge_trap = true;
+                }
             } else if mode == Mode::Frames && Self::rd32(cpu, 4 * (8 + n)) == 0xffff_ffff && row.pc == 0x00ff_ffff {
                 // the entry leads nowhere: frame, SP and CCR are judged all the same; the fetch that follows fails
                 let fa = prev.sp.wrapping_sub(4);
@@ -513,6 +522,13 @@ impl Observer for IrqObserver {
                 }
             }
         }
+        if self.edge_trap {
+            // frame pushed, handler run, RTE back to an address nothing can be fetched from: that fetch error is the end
+            return match outcome {
+                Outcome::Err(e) if e.contains("Invalid instruction fetch address") && self.stack.is_empty() => Ok(()),
+                other => Err(fail(mode, "round-trip", format!("a TRAPA in the last word of a region: the run ended with {:?} and {} frame(s) outstanding", other, self.stack.len()))),
+            };
+        }
         if self.trapped_nowhere {
             return match outcome {
                 Outcome::Err(e) if e.contains("Invalid instruction fetch address [0xfffffe]") || e.contains("Invalid instruction fetch address [0xffffff]") => Ok(()),
@@ -641,15 +657,17 @@ fn gen_deep(rng: &mut Rng) -> Scn {
     if rng.chance(1, 2) {
         // the other way to get there (the only one without any RTE on the way down): a trap handler that traps again
         let n = rng.range(1, 3) as u8;
-        let depth = rng.range(257, 400) as u16;
+        // one in eight of them goes beyond 4096 frames (64 KiB of stack in DRAM)
+        let very_deep = rng.chance(1, 8);
+        let depth = if very_deep { rng.range(4097, 6000) } else { rng.range(257, 400) } as u16;
         let other = rng.range(12, 63) as u8;
         let handlers = vec![Handler { vector: 8 + n, kind: HandlerKind::Recurse(n, depth), at_zero: false }, Handler { vector: other, kind: HandlerKind::Count, at_zero: false }];
         let blocks = vec![Block::SetCcr(rng.u8()), Block::Trapa(n), Block::Arith(rng.u8()), Block::Trapa(n), Block::SetCcr(0x00), Block::Delay(24)];
-        let guest = GuestSpec { blocks, handlers, code_dram: rng.chance(1, 3), stack_dram: rng.chance(1, 2), data_dram: rng.chance(1, 3), vec_top: rng.u8(), sub_delay: 1, init_ccr: None, stack_off: 0, exit_style: 0 };
+        let guest = GuestSpec { blocks, handlers, code_dram: rng.chance(1, 3), stack_dram: very_deep || rng.chance(1, 2), data_dram: rng.chance(1, 3), vec_top: rng.u8(), sub_delay: 1, init_ccr: None, stack_off: 0, exit_style: 0 };
         // a request that arrives somewhere inside the recursion (I is set there) is delivered after it
         let events = vec![Event { trig: Trigger::Iter(rng.below(3000)), act: Action::Irq(other) }];
         let cfg = SysCfg { wait_start: false, clock: gen_clock_model(rng), clock_seed: rng.next_u64(), step_cap: 400_000, print_msgs: false, print_opcode: false };
-        return Scn { guest, events, cfg, timer_irqs: false };
+        return Scn { guest, events, cfg, timer_irqs: false, preload: vec![] };
     }
     let nvec = rng.range(1, 3) as usize;
     let mut pool: Vec<u8> = (1..=63u8).filter(|v| !(9..=11).contains(v)).collect();
@@ -664,7 +682,7 @@ fn gen_deep(rng: &mut Rng) -> Scn {
     let n = rng.range(258, if stack_dram { 330 } else { 268 }) as usize;
     let events = vec![Event { trig: Trigger::AtBlock { block: 1, nth: 0 }, act: Action::Burst((0..n).map(|_| *rng.pick(&vectors)).collect()) }];
     let cfg = SysCfg { wait_start: false, clock: gen_clock_model(rng), clock_seed: rng.next_u64(), step_cap: 400_000, print_msgs: false, print_opcode: false };
-    Scn { guest, events, cfg, timer_irqs: false }
+    Scn { guest, events, cfg, timer_irqs: false, preload: vec![] }
 }
 
 /// More than 2^20 requests outstanding at once (one vector, an empty handler).
@@ -675,7 +693,7 @@ fn gen_giant_flood(rng: &mut Rng) -> Scn {
     let n = (1usize << 20) + rng.range(1, 300) as usize;
     let events = vec![Event { trig: Trigger::AtBlock { block: 1, nth: 0 }, act: Action::Burst(vec![v; n]) }];
     let cfg = SysCfg { wait_start: false, clock: ClockModel::Fast, clock_seed: rng.next_u64(), step_cap: 8_000_000, print_msgs: false, print_opcode: false };
-    Scn { guest, events, cfg, timer_irqs: false }
+    Scn { guest, events, cfg, timer_irqs: false, preload: vec![] }
 }
 
 pub fn generate(rng: &mut Rng, tier: Tier, frames: bool, index: u64) -> Scn {
@@ -818,6 +836,9 @@ pub fn generate(rng: &mut Rng, tier: Tier, frames: bool, index: u64) -> Scn {
     if frames && rng.chance(1, 40) {
         // the program's last act is a TRAPA through an entry that is all ones
         blocks.push(Block::TrapNowhere(rng.range(1, 3) as u8));
+    } else if frames && use_traps && rng.chance(1, 30) {
+        // the program's last act is a TRAPA that sits in the last word of DRAM: the frame holds an address behind the region
+        blocks.push(Block::EdgeExec { word: 0x5700 | ((rng.range(1, 3) as u16) << 4), edge: 0 });
     }
     let guest = GuestSpec {
         blocks,
@@ -890,7 +911,9 @@ pub fn generate(rng: &mut Rng, tier: Tier, frames: bool, index: u64) -> Scn {
         * guest.handlers.iter().map(|h| handler_cost(&h.kind)).max().unwrap_or(2)
         * 2;
     let cfg = SysCfg { wait_start: false, clock: gen_clock_model(rng), clock_seed: rng.next_u64(), step_cap: (est + handler_budget) * 6 + 20_000 + if timer_irqs { 200_000 } else { 0 }, print_msgs: rng.chance(1, 16), print_opcode: false };
-    Scn { guest, events, cfg, timer_irqs }
+    // one run in ten: up to three requests are already raised when run() is called
+    let preload: Vec<u8> = if !timer_irqs && !irq_vectors.is_empty() && rng.chance(1, 10) { (0..rng.range(1, 3)).map(|_| *rng.pick(&irq_vectors)).collect() } else { vec![] };
+    Scn { guest, events, cfg, timer_irqs, preload }
 }
 
 fn run_twin(g: &Guest, scn: &Scn) -> Result<(FinalState, u64), Failure> {
@@ -929,8 +952,20 @@ pub fn execute(scn: &Scn, stats: &mut Stats, mode: Mode) -> Verdict {
             }
         }
     }
-    let obs = IrqObserver::new(mode, g.handlers.len(), scn.timer_irqs);
-    let (run, obs) = run_sys(&g, &scn.cfg, &scn.events, obs, false, |_| {});
+    let mut obs = IrqObserver::new(mode, g.handlers.len(), scn.timer_irqs);
+    for v in &scn.preload {
+        if g.handler_for_vector(*v).is_none() || *v == 0 || *v >= 64 {
+            return Verdict::Invalid(format!("request for vector {} without a handler", v));
+        }
+        obs.pend.push(*v);
+        obs.injected += 1;
+    }
+    let preload = scn.preload.clone();
+    let (run, obs) = run_sys(&g, &scn.cfg, &scn.events, obs, false, move |sim| {
+        for v in &preload {
+            sim.cpu.verif_request_interrupt(*v);
+        }
+    });
     if let Outcome::Panic(p) = &run.outcome {
         return Verdict::Fail(Failure::keyed(if mode == Mode::Delivery { "c10.panic" } else { "c06.panic" }, format!("{}:{}", p.file, p.msg), format!("panic at {}:{}: {}", p.file, p.line, p.msg)));
     }
@@ -1006,6 +1041,9 @@ pub fn execute(scn: &Scn, stats: &mut Stats, mode: Mode) -> Verdict {
 
 pub fn shrink(scn: &Scn) -> Vec<Scn> {
     let mut out = Vec::new();
+    if !scn.preload.is_empty() {
+        out.push(Scn { preload: vec![], ..scn.clone() });
+    }
     for ev in remove_chunks(&scn.events) {
         out.push(Scn { events: ev, ..scn.clone() });
     }
